@@ -26,10 +26,16 @@ ASSUMPTIONS = ['labels are scraped from the tool\'s output lines with string arg
                'expected selection is computed from ground truth by (connection, id, incarnation index)']
 SHRINK_FIELDS = ['intents', 'sink_ops']
 DETERMINISM_RUNS = 16
+GDB_LANES = (14, 15)     # the same label queries on sessions that arrive as libwayland closures under the GDB plugin (fake gdb)
 
 
 def generate(seed, tier, index):
     rng = random.Random('%d/gen' % seed)
+    from . import c02
+    if c02.in_gdb_world():
+        sc = c02.gen_gdb(seed, tier, ID)
+        sc['config'].update({'kind': 'session', 'harvest_seed': rng.randrange(1 << 30), 'max_queries': 40 if tier == 'quick' else 120})
+        return sc
     if index == 0:
         return {'prop': ID, 'seed': seed, 'config': {'kind': 'bijection'}, 'intents': []}
     if index % 8 == 7:
@@ -121,8 +127,20 @@ def execute(sc):
     if sc['config'].get('kind') == 'sink':
         return execute_sink(sc)
     cfg = sc['config']
-    st, res, tr, metas = S.run(sc)
     V = common.Viol()
+    if cfg.get('world') == 'gdb':
+        from . import c02, c06
+        sim, st, _names, _items, exc = c02.observe_gdb(sc)
+        res = c06.GdbRes()
+        res.rec = sim.rec
+        res.controller = sim.controller
+        res.exception = RuntimeError('exception under the GDB plugin') if exc else None
+        res.traceback = exc or ''
+        tr = sim.tracker
+        V.counters.update(sim.counters)
+        V.bump('gdb_world_sessions')
+    else:
+        st, res, tr, metas = S.run(sc)
     names = oracles.conn_names(st)
     if res.exception is not None:
         V.add('C14/label-matcher', 'exception:' + type(res.exception).__name__, res.traceback[-1500:])
